@@ -42,6 +42,9 @@ REFS = {
     # the empty string is a category like any other (what from_csv gives for an empty column)
     "E": cont(("a", [(0, 2, ""), (3, 4, "x"), (6, 9, "")]), ("b", [(1, 2, "")])),
 }
+# fixed-length windows of a non-dyadic length: the measured deviation of the durations is (nearly) zero
+REFS["F"] = cont(("a", [(0, 0.3, "x"), (0.5, 0.8, "y"), (1.1, 1.4, "x")]), ("b", [(0.2, 0.5, "x"), (0.9, 1.2, "y")]))
+REFS["G"] = cont(("a", [(0.7, 1.4, "x"), (2.1, 2.8, "x")]), ("b", [(0, 0.7, "x")]))
 CUSTOM = {
     "K1": dict(annotators=["u", "v"], avg_num_units_per_annotator=1.5, std_num_units_per_annotator=0.75,
                avg_gap=2.0, std_gap=3.0, avg_duration=4.0, std_duration=1.25, categories=["k", "l"],
@@ -129,6 +132,9 @@ def configs(tier):
                     "nz": 3 if len(gt) == 1 else 5, "boundary": len(gt) > 1})
     out.append({"ref": "B", "gt": None, "bound": 2 if tier == "quick" else 3, "nz": 5, "boundary": True})
     out.append({"ref": "C", "gt": None, "bound": 2 if tier == "quick" else 4, "nz": 5, "boundary": True})
+    out.append({"ref": "F", "gt": None, "bound": 2 if tier == "quick" else 3, "nz": 3})
+    out.append({"ref": "F", "gt": ["b"], "bound": 3 if tier == "quick" else 4, "nz": 3})
+    out.append({"ref": "G", "gt": None, "bound": 3 if tier == "quick" else 4, "nz": 3})
     out.append({"custom": "K1", "bound": None, "nz": 2 if tier == "quick" else 3, "ncount": 3})
     out.append({"custom": "K2", "bound": 3 if tier == "quick" else 5, "nz": 5, "boundary": True})
     # ---- non-initial states: the same sampler object re-initialised (other ground truth, mutated reference,
@@ -150,6 +156,9 @@ def configs(tier):
     # the caller's parameter collections are NumPy arrays / a list which the caller re-uses (overwrites in place)
     # after the initialisation: the draws follow what was supplied at initialisation
     out.append({"custom": "K1", "caller_overwrites": True, "bound": None, "nz": 2, "ncount": 3})
+    # a later initialisation that the sampler refuses (unknown annotator; caught): draws follow the one that succeeded
+    out.append({"ref": "B", "gt": ["a", "b"], "then_refused": ["nobody"], "bound": 3 if tier == "quick" else 5, "nz": 5})
+    out.append({"ref": "A", "gt": None, "then_refused": ["b", "nobody"], "bound": None, "nz": 3})
     if tier == "thorough":
         out.append({"ref": "B", "gt": ["a", "c"], "bound": 5, "nz": 5, "boundary": True})
         out.append({"ref": "A", "gt": None, "bound": 4, "nz": 5, "boundary": True})
@@ -227,6 +236,11 @@ def make_fn_factory(cfg):
                 s.init_sampling_custom(**CUSTOM[cfg["custom"]])
             else:
                 s.init_sampling(c, cfg.get("gt"))
+            if cfg.get("then_refused"):
+                try:
+                    s.init_sampling(c, cfg["then_refused"])
+                except Exception:  # noqa - refused and caught by the caller
+                    pass
             return continuum_to_spec(s.sample_from_continuum)
         return fn
     return make_fn
